@@ -17,6 +17,10 @@
 (*   bit 32  tr[i] # (word A_i commutes with every word of B)                *)
 (*   bit 64  malformed record                                                 *)
 (* The verdict is the sum of the bits (0 = conforms).                        *)
+(* Records of kind "collapse" carry the rows A, B handed to                  *)
+(* MultiformOperator.collapse as one stacked array (hundreds of rows,        *)
+(* repeated words, int8 / int64) and the returned rows P:                    *)
+(*   bit 1   P # A + B as operators      bit 2   P not collapsed             *)
 (***************************************************************************)
 EXTENDS Pauli, TLC, Json, IOUtils
 
@@ -26,7 +30,16 @@ VARIABLE i
 Words(ts) == {ts[x].w : x \in 1..Len(ts)}
 WF(ts, n) == \A x \in 1..Len(ts) : Len(ts[x].w) = n /\ \A q \in 1..n : ts[x].w[q] \in 0..3
 
-Verdict(j) ==
+\* kind "collapse": P = rows returned by MultiformOperator.collapse for the stacked rows A followed by B
+\* (duplicates inside A, inside B and across them); the oracle is the sum of the two Pauli operators
+CollapseVerdict(j) ==
+  LET n  == j.n
+      AB == OpAdd(OpFromTerms(j.A), OpFromTerms(j.B))
+      b1 == IF OpEq(OpFromTerms(j.P), AB) THEN 0 ELSE 1
+      b2 == IF Cardinality(Words(j.P)) # Len(j.P) \/ \E x \in 1..Len(j.P) : j.P[x].c = RZero THEN 2 ELSE 0
+  IN IF ~(WF(j.A, n) /\ WF(j.B, n) /\ WF(j.P, n)) THEN 64 ELSE b1 + b2
+
+PairVerdict(j) ==
   LET n  == j.n
       A  == OpFromTerms(j.A)
       B  == OpFromTerms(j.B)
@@ -41,6 +54,8 @@ Verdict(j) ==
                 \E x \in 1..Len(j.A) : j.tr[x] # (\A y \in 1..Len(j.B) : CommuteWords(j.A[x].w, j.B[y].w, n))) THEN 32 ELSE 0
   IN IF ~(WF(j.A, n) /\ WF(j.B, n) /\ (j.has_prod => WF(j.P, n) /\ WF(j.PT, n))) THEN 64
      ELSE b1 + b2 + b4 + b8 + b16 + b32
+
+Verdict(j) == IF j.kind = "collapse" THEN CollapseVerdict(j) ELSE PairVerdict(j)
 
 JInit == i \in 1..Len(Jobs)
 JNext == i > 0 /\ PrintT(<<"V", Jobs[i].id, Verdict(Jobs[i])>>) /\ i' = 0
